@@ -246,6 +246,7 @@ def install(lazy_io):
 
   AT.start, AT.run, AT.join = start, run, join
   AT._verif_wrapped = True
+  lazy_io.AudioIO._verif_del = lazy_io.AudioIO.__del__   # the real destructor, called explicitly by the check
   lazy_io.AudioIO.__del__ = lambda self: None   # GC must not re-enter close() after a case
   lazy_io._verif_tracer = _line_tracer(fname)
 
